@@ -325,8 +325,34 @@ func cmdCheck(args []string) int {
 			coverQs = append(coverQs, cq)
 		}
 	}
+	// call-site covers: an assumed callee postcondition that makes a satisfiable state unsatisfiable is an
+	// inconsistent contract (everything after the call would be proved vacuously)
+	var ccs []*CallCover
+	for _, r := range results {
+		if len(r.Undecided) > 0 {
+			continue
+		}
+		for _, cc := range r.Ctx.callCovers {
+			ccs = append(ccs, cc)
+			coverQs = append(coverQs, cc.After)
+		}
+	}
 	solveCovers(coverQs, workDir, 16)
-	ncover = len(coverQs)
+	var befores []*Query
+	for _, cc := range ccs {
+		if cc.After.Status == "unsat" {
+			befores = append(befores, cc.Before)
+		}
+	}
+	solveCovers(befores, workDir, 16)
+	var inconsistent []string
+	for _, cc := range ccs {
+		if cc.After.Status == "unsat" && cc.Before.Status != "unsat" {
+			inconsistent = append(inconsistent, fmt.Sprintf("func=%s call=%s at %s", cc.After.Obl.Fn, cc.Callee, cc.Where))
+		}
+	}
+	sort.Strings(inconsistent)
+	ncover = len(coverQs) + len(befores)
 	for _, r := range results {
 		if len(r.Undecided) > 0 || len(r.Covers) == 0 {
 			continue
@@ -427,6 +453,10 @@ func cmdCheck(args []string) int {
 	}
 	for _, f := range vacuous {
 		fmt.Printf("VACUOUS property=%s func=%s (no return point reachable under the stated preconditions)\n", prop, f)
+	}
+	for _, f := range inconsistent {
+		fmt.Printf("INCONSISTENT-CONTRACT property=%s %s (assuming the callee's postcondition contradicts the state at the call)\n", prop, f)
+		vacuous = append(vacuous, "inconsistent: "+f)
 	}
 	// expected obligations guard
 	expected := loadExpected(filepath.Join(*verif, "expected_obligations.json"))
